@@ -8,6 +8,7 @@ blocking or non-blocking, a dropped `drain`, a changed channel capacity or selec
 import GoZero.Extracted.C10
 import GoZero.C10.Driver
 import GoZero.C10.Props5
+import GoZero.C10.Props6
 namespace GoZero.C10.Tie
 open GoZero.Extracted.C10
 
@@ -430,5 +431,56 @@ theorem tie_mr_path_returns_the_cancel_error (k : Nat) (ok : Bool) (v : Nat) :
     (GoZero.Extracted.C10.callerOutput (GoZero.Extracted.C10.cancelRecords (some k)) ok v) = (0, some k) := by
   rw [tie_cancelRecords, tie_callerOutput]
   simp [GoZero.C10.callerOutput, GoZero.C10.cancelRecords, GoZero.C10.aeSet, GoZero.C10.aeLoad]
+
+/-! ### round 5c: `cancelError` as the wrapper it is — the error path rendered over VALUES (`Extracted.C10.GErr`) -/
+
+/-- the extractor's value type is the model's. -/
+def convG : GoZero.Extracted.C10.GErr → GoZero.C10.GErr
+  | .code k => .code k
+  | .marked i => .marked (convG i)
+
+theorem tie_markCancelW (e : Option GoZero.Extracted.C10.GErr) :
+    (GoZero.Extracted.C10.markCancelW e).map convG = GoZero.C10.markCancelW (e.map convG) := by
+  cases e <;> simp [GoZero.Extracted.C10.markCancelW, GoZero.C10.markCancelW, convG]
+
+theorem tie_cancelRecordsW (e : Option GoZero.Extracted.C10.GErr) :
+    (GoZero.Extracted.C10.cancelRecordsW e).map convG = GoZero.C10.cancelRecordsW (e.map convG) := by
+  cases e <;> simp [GoZero.Extracted.C10.cancelRecordsW, GoZero.Extracted.C10.atomicErrorSetW, GoZero.C10.cancelRecordsW, convG,
+    GoZero.Extracted.C10.errCancelWithNil, GoZero.C10.encErr]
+
+theorem tie_callerOutputW (e : Option GoZero.Extracted.C10.GErr) (ok : Bool) (v : Nat) :
+    ((GoZero.Extracted.C10.callerOutputW e ok v).1, (GoZero.Extracted.C10.callerOutputW e ok v).2.map convG) =
+      GoZero.C10.callerOutputW (e.map convG) ok v := by
+  cases e <;> cases ok <;> simp [GoZero.Extracted.C10.callerOutputW, GoZero.Extracted.C10.atomicErrorLoadW, GoZero.C10.callerOutputW,
+    convG, GoZero.Extracted.C10.errReduceNoOutput, GoZero.C10.encErr]
+
+theorem tie_voidReturnW (e : Option GoZero.Extracted.C10.GErr) :
+    (GoZero.Extracted.C10.voidReturnW e).map convG = GoZero.C10.voidReturnW (e.map convG) := by
+  cases e with
+  | none => simp [GoZero.Extracted.C10.voidReturnW, GoZero.Extracted.C10.errorsIsW, GoZero.C10.voidReturnW, GoZero.C10.isNoOutputW]
+  | some x =>
+    cases x with
+    | marked i => simp [GoZero.Extracted.C10.voidReturnW, GoZero.C10.voidReturnW, convG]
+    | code k =>
+      have h := tie_errorsIs_noOutput (some k)
+      cases hb : GoZero.C10.isNoOutput (some k) <;>
+        simp [GoZero.Extracted.C10.voidReturnW, GoZero.Extracted.C10.errorsIsW, GoZero.C10.voidReturnW,
+          GoZero.C10.isNoOutputW, convG, h, hb]
+
+/-- the composed TRANSLATED functions over values: `MapReduceVoid` / `Finish` return the user's value itself. -/
+theorem tie_void_path_identity (e : GoZero.Extracted.C10.GErr) (ok : Bool) (v : Nat) :
+    (GoZero.Extracted.C10.voidReturnW (GoZero.Extracted.C10.callerOutputW
+      (GoZero.Extracted.C10.cancelRecordsW (GoZero.Extracted.C10.markCancelW (some e))) ok v).2) = some e := by
+  simp [GoZero.Extracted.C10.markCancelW, GoZero.Extracted.C10.cancelRecordsW, GoZero.Extracted.C10.atomicErrorSetW,
+    GoZero.Extracted.C10.callerOutputW, GoZero.Extracted.C10.atomicErrorLoadW, GoZero.Extracted.C10.voidReturnW]
+
+/-! ### round 5c: the user function is the ONLY statement of its goroutine outside the deferred cleanup, and the
+deferred function is installed first: `runtime.Goexit` inside a user function runs exactly the cleanup of a return
+(`Spec6.goroutineRuns`, `Props6.goexit_is_return`); go.mod says go ≥ 1.21: `panic(nil)` is recovered as a non-nil
+value (`Props6.panicNil_is_panic`). -/
+theorem tie_reducerGoBody : reducerGoBody = [.callUser "reducer"] := by decide
+theorem tie_workerGoBody : workerGoBody = [.callUser "mapper"] := by decide
+theorem tie_generatorGoBody : generatorGoBody = [.callUser "generate"] := by decide
+theorem tie_goDirective : goDirective.1 > 1 ∨ (goDirective.1 = 1 ∧ goDirective.2 ≥ 21) := by decide
 
 end GoZero.C10.Tie
